@@ -26,6 +26,51 @@ class StubTrace(simmodel.SimHooks):
         return simmodel.SimHooks.member_call(self, I, node, name, obj, args, p)
 
 
+def _nonempty_polarity(cond, member):
+    """True: cond true implies this->member is non-empty; False: cond false implies it; 'mentions': member occurs but undecided; None."""
+    c = cast.strip(cond)
+    while c.get('kind') in ('ImplicitCastExpr', 'ParenExpr', 'ExprWithCleanups') and children(c):
+        c = cast.strip(children(c)[0])
+
+    def is_call(e, names):
+        e = cast.strip(e)
+        while e.get('kind') in ('ImplicitCastExpr', 'ParenExpr') and children(e):
+            e = cast.strip(children(e)[0])
+        if e.get('kind') == 'CXXMemberCallExpr' and callee_of(e)[1] in names:
+            o = callee_of(e)[3]
+            return o is not None and any(y['kind'] == 'MemberExpr' and y.get('name') == member for y in walk(o))
+        return False
+    if is_call(c, ('size', 'length')):
+        return True
+    if is_call(c, ('empty',)):
+        return False
+    if c.get('kind') == 'UnaryOperator' and c.get('opcode') == '!':
+        r = _nonempty_polarity(children(c)[0], member)
+        return (not r) if r in (True, False) else r
+    if c.get('kind') == 'BinaryOperator' and len(children(c)) == 2:
+        a, b = children(c)
+        op = c.get('opcode')
+        if op in ('>', '!=', '==', '>=') and is_call(a, ('size', 'length')):
+            k = cast.const_int(b, None)
+            if k == 0 and op in ('>', '!='):
+                return True
+            if k == 0 and op == '==':
+                return False
+            if k is not None and k >= 1 and op == '>=':
+                return True
+        if op == '&&':
+            ra, rb = _nonempty_polarity(a, member), _nonempty_polarity(b, member)
+            if ra is True or rb is True:
+                return True
+        if op == '||':
+            ra, rb = _nonempty_polarity(a, member), _nonempty_polarity(b, member)
+            if ra is False or rb is False:
+                return False
+    if any(y['kind'] == 'MemberExpr' and y.get('name') == member for y in walk(c)):
+        return 'mentions'
+    return None
+
+
 def run(rep, tier):
     idx = cast.load('hexsim.cpp')
     rep.analysed(unit='hexsim.cpp')
@@ -210,17 +255,28 @@ def rule_r2(rep, idx):
         for c in cast.calls_in(m_.body):
             if callee_of(c)[1] != 'lookupSymbol' or callee_of(c)[2] != lk.id:
                 continue
-            guarded = False
+            guarded, unknown = False, False
             x = c
             while id(x) in parents:
                 p_ = parents[id(x)]
-                if p_['kind'] == 'IfStmt' and children(p_)[0] is not x and any(
-                        y['kind'] == 'MemberExpr' and y.get('name') == 'debugInfo' for y in walk(children(p_)[0])) and children(p_)[1] is x or (
-                        p_['kind'] == 'IfStmt' and any(y['kind'] == 'MemberExpr' and y.get('name') == 'debugInfo' for y in walk(children(p_)[0]))
-                        and any(z is x for z in walk(children(p_)[1]))):
+                if p_['kind'] in ('IfStmt', 'ConditionalOperator') and children(p_)[0] is not x:
+                    cc_ = children(p_)
+                    pol = _nonempty_polarity(cc_[0], 'debugInfo')
+                    in_then = len(cc_) > 1 and any(z is x for z in walk(cc_[1]))
+                    in_else = len(cc_) > 2 and any(z is x for z in walk(cc_[2]))
+                    if (pol is True and in_then) or (pol is False and in_else):
+                        guarded = True
+                        break
+                    if pol == 'mentions':
+                        unknown = True
+                if p_['kind'] == 'BinaryOperator' and p_.get('opcode') == '&&' and children(p_)[1] is x and _nonempty_polarity(children(p_)[0], 'debugInfo') is True:
                     guarded = True
                     break
                 x = p_
+            if not guarded and unknown and needs_guard:
+                rep.undecided('R2c', '%s::%s:lookupSymbol-guarded@%s' % (CLS, m_.name, pos(c).split(':')[-1]),
+                              'the call is under a condition that mentions debugInfo in a shape this rule does not decide', pos(c) + ' ' + m_.qname)
+                continue
             rep.add('R2c', '%s::%s:lookupSymbol-guarded@%s' % (CLS, m_.name, pos(c).split(':')[-1]), guarded or not needs_guard, pos(c) + ' ' + m_.qname,
                     'called under a test of debugInfo' if guarded else
                     ('lookupSymbol() indexes debugInfo[0] unconditionally and this call is not under a test that the table is non-empty: on a '
